@@ -75,7 +75,10 @@ func vfH_C16_Reopen() {
 		ts := vfU64("pts")
 		t.DeleteBelow(ts)
 		m.deleteBelow(ts)
-		var prev uint64
+		// the re-inserted keys extend the ascending history at its right end (the insert position is
+		// then determined: no fork per key comparison), which is where leaves split and take the
+		// recycled pages
+		prev := last
 		for i := 0; i < vfParam("presets", 3); i++ {
 			k, v := vfTreeKV("q")
 			vfAssume(k > prev)
